@@ -224,3 +224,19 @@ def indep_option_wire(o):
             body += bytes([len(s)]) + s
         return 0x01, body + b"\0"
     return o.type, bytes(o.payload)
+
+
+def indep_split_someip(data: bytes):
+    """independent framing of a datagram into SOME/IP messages, written from PRS_SOMEIP: returns the list of
+    (service, method, length, client, session, proto, iface, msgtype, retcode, payload) of the well-formed prefix"""
+    out = []
+    valid_mt = {0, 1, 2, 0x40, 0x41, 0x42, 0x80, 0x81, 0xC0, 0xC1}
+    while data:
+        if len(data) < 16:
+            break
+        sid, mid, length, cid, sess, pv, iv, mt, rc = struct.unpack("!HHIHHBBBB", data[:16])
+        if length < 8 or pv != 1 or mt not in valid_mt or rc > 10 or len(data) - 8 < length:
+            break
+        out.append((sid, mid, length, cid, sess, pv, iv, mt, rc, data[16:8 + length]))
+        data = data[8 + length:]
+    return out
